@@ -426,22 +426,27 @@ REPS_QUICK = [(r, r) for r in REPS] + [("int32_t", "int64_t"), ("int64_t", "int3
 
 def build_instances(tier, units, qunits, ro):
     out = []
-    rp = REPS_QUICK if tier == "quick" else [(a, b) for a in REPS for b in REPS]
+    core6 = {u.name for u in point_units("quick")}
+    full = [(a, b) for a in REPS for b in REPS]
+
+    def rps(a, b):
+        # thorough: all 25 ordered rep pairs among the six core units, the 13-pair mix elsewhere
+        return full if tier == "thorough" and a.name in core6 and b.name in core6 else REPS_QUICK
     for a in units:
         for b in units:
             if a is b or (a.name, b.name) not in ro["disp"]:
                 continue
-            for r1, r2 in rp:
+            for r1, r2 in rps(a, b):
                 if True:
                     out.append(Conv(len(out), a, r1, b, r2, ro["disp"][(a.name, b.name)]))
     for i, a in enumerate(units):
         for b in units[i + 1:]:
             if (a.name, b.name) not in ro["cpu"]:
                 continue
-            for r1, r2 in rp:
+            for r1, r2 in rps(a, b):
                 if True:
                     out.append(Pair(len(out), a, r1, b, r2, ro["cpu"][(a.name, b.name)]))
-    reps = SHIFT_REPS_QUICK if tier == "quick" else [(a, b) for a in REPS for b in REPS]
+    reps = SHIFT_REPS_QUICK if tier == "quick" else REPS_QUICK
     for p in units:
         for q in qunits:
             if (p.name, q.name) not in ro["shift"]:
